@@ -471,15 +471,16 @@ pub fn run_c04(ctx: &mut Ctx) {
     byte_stream(ctx, &cfg, &mut |ctx, b, src| {
         ctx.evals += 1;
         ctx.count(src.name());
+        // judged call first (see run_c03): a statistics-only parse must not absorb state left by the previous input
+        ctx.judge_bytes(b, &mut |c| parse::c04_check(c));
         if let Ok(Ok(l)) = guard(|| Locale::from_bytes(b)) {
             ctx.count("value:parsed-locale");
-            let s = l.to_string();
+            let s = l.to_string(); 
             ctx.sig(SigH::new(4).b(s.as_bytes()).fin());
             if ctx.wants_sample("parsed") && s.len() > 12 {
                 ctx.sample("parsed", || json!({"input": String::from_utf8_lossy(b), "to_string": s}));
             }
         }
-        ctx.judge_bytes(b, &mut |c| parse::c04_check(c));
     });
     run_values(ctx, 0xC04, if quick { 20_000 } else { 1_000_000 }, if quick { 200_000 } else { 10_000_000 }, c04_value);
     ctx.extra.insert("workload".into(), json!(format!("parsed values of [{}]; every intermediate value of random mutation histories; values built by from_parts, by field assignment, by parse", cfg.describe())));
@@ -492,9 +493,11 @@ pub fn run_c05(ctx: &mut Ctx) {
     byte_stream(ctx, &cfg, &mut |ctx, b, src| {
         ctx.evals += 1;
         ctx.count(src.name());
+        // judged call first (see run_c03): a statistics-only parse must not absorb state left by the previous input
+        ctx.judge_bytes(b, &mut |c| parse::c05_check(c));
         if let Ok(Ok(l)) = guard(|| Locale::from_bytes(b)) {
             ctx.count("value:parsed-locale");
-            let s = l.to_string();
+            let s = l.to_string(); 
             if crate::refspec::n_subtags(s.as_bytes()) >= 2 {
                 ctx.sig(SigH::new(5).b(s.as_bytes()).fin());
             }
@@ -502,7 +505,6 @@ pub fn run_c05(ctx: &mut Ctx) {
                 ctx.sample("parsed", || json!({"input": String::from_utf8_lossy(b), "to_string": s, "round_trips": s.parse::<Locale>().ok().map(|x| x == l)}));
             }
         }
-        ctx.judge_bytes(b, &mut |c| parse::c05_check(c));
     });
     run_values(ctx, 0xC05, if quick { 20_000 } else { 1_000_000 }, if quick { 200_000 } else { 10_000_000 }, parse::c05_check_locale_value);
     // every valid subtag text of the C15 pools round-trips on its own
